@@ -15,7 +15,7 @@ out.append("| id | property | what fails | why not repaired here |\n|---|---|---
 for f in kf:
     if f.get("status") == "known":
         out.append("| %s | %s | %s | %s |" % (f.get("id"), f["property"], (f.get("what") or f.get("entry", "")).replace("|", "\\|")[:400], (f.get("why_not_fixed") or "see 8.4.3").replace("|", "\\|")))
-out.append("\n#### 8.5.1 Seeded changes (one per property, written by sub-agents that saw only the property text)\n")
+out.append("\n#### 8.5.1 Seeded changes (written by sub-agents that saw only the property text; '-2' = second round, told to avoid the first round's function)\n")
 out.append("| seed | needs to manifest | result |\n|---|---|---|")
 for d in sorted(os.listdir(os.path.join(V, "seeded"))):
     m = json.load(open(os.path.join(V, "seeded", d, "meta.json")))
